@@ -54,7 +54,7 @@ REQUIRED = {"mpfa": 0.2, "mpsa": 0.15, "biot": 0.15, "mode-split": 0.2, "mode-pa
             "mode-update-api": 0.05, "update-stencil-proper": 0.02,
             "mode-inverter": 0.05, "dim2": 0.2, "dim3": 0.2, "split-shared-face": 0.1, "partial-proper": 0.1,
             "by-memory": 0.05, "python-inverter": 0.1,
-            "active-cells-reindexed": 0.05, "face-in-3-subproblems": 0.02, "biot-het-alpha-reindexed": 0.02}
+            "active-cells-reindexed": 0.05, "face-in-3-subproblems": 0.02, "face-in-3-subproblems-mpfa": 0.015, "biot-het-alpha-reindexed": 0.02}
 
 RTOL = 1e-10
 
@@ -141,7 +141,8 @@ def _spec(draw, tier):
     # a quarter of the split cases use a small tetrahedral lattice with 4-6 subproblems: its coordinate-based
     # partition has irregular boundaries, the only way a face ends up in three or more subproblems (probe: ~60 %
     # of such cases; practically never for triangles or structured partitions)
-    simplex_split = mode == "split" and draw(st.integers(0, 3)) == 0
+    # (Mpfa: half of the split cases - it is cheap, and its glue code is separate from Mpsa / Biot's)
+    simplex_split = mode == "split" and draw(st.integers(0, 1 if disc == "mpfa" else 3)) == 0
     if disc == "mpfa":
         restricted = mode in ("partial", "update", "update-api")  # larger lattices: active cells a proper subset of the grid
         grid = draw(grid_spec(dims=(2, 2, 3), poly=False, max_amp=0.15, max_n=(7 if big else 6) if restricted else (5 if big else 4),
@@ -188,7 +189,7 @@ def _spec(draw, tier):
     if mode == "split":
         var["k"] = draw(st.integers(2, max(2, kmax))) if ncell >= 2 else 1
         if simplex_split and ncell >= 4:
-            var["k"] = min(ncell, 4 if heavy else draw(st.integers(4, 6)))
+            var["k"] = min(ncell, 4 if heavy else draw(st.integers(3, 6)))
         var["by_mem"] = draw(st.sampled_from([False, False, True]))
     if mode == "update-api":
         # Discretization.update_discretization(): data["update_discretization"] = {"modified_cells" | "modified_faces"};
@@ -414,7 +415,7 @@ def check(spec):
         if var["mode"] == "split":
             nparts, nshared, nshared3 = _count_shared_faces(discr, g, k, var["by_mem"], peak)
             if nshared3 >= 1:
-                labels.append("face-in-3-subproblems")
+                labels += ["face-in-3-subproblems", "face-in-3-subproblems-" + disc]
             labels.append(f"parts-{min(nparts, 8)}")
             if nparts >= 2 and nshared >= 1:
                 labels.append("split-shared-face")
